@@ -45,6 +45,11 @@ Theorem C14_unguarded_refuted :
 Proof. exact unguarded_refuted. Qed.
 Print Assumptions C14_unguarded_refuted.
 
+(* restoring the saved slots unconditionally is refuted: tracing disabled, host hooks 5 and 6, shutdown leaves none *)
+Theorem C14_notrace_clobber_refuted : sys_hook notrace_clobber_witness = 0%nat /\ thr_hook notrace_clobber_witness = 0%nat.
+Proof. exact notrace_clobber_refuted. Qed.
+Print Assumptions C14_notrace_clobber_refuted.
+
 (* translator-tied: in the skeleton of Deep.shutdown REGENERATED from /repo/src, whatever Exception-class failures
    the steps raise, shutdown does not raise, and its only early return is the 'not started' guard *)
 Theorem C14_shutdown_contains_failures :
@@ -54,3 +59,17 @@ Print Assumptions C14_shutdown_contains_failures.
 Theorem C14_shutdown_single_guard : length (ret_paths skel_deep_shutdown) = 1%nat.
 Proof. vm_compute. reflexivity. Qed.
 Print Assumptions C14_shutdown_single_guard.
+
+(* translator-tied: both loops of Deep.shutdown -- its fixed steps (restore hooks, drain, stop polling) and its plugins --
+   attempt every element and reach what follows, whatever Exception-class failures the steps raise *)
+Theorem C14_every_step_and_plugin_attempted :
+  length shutdown_loop_bodies = 2%nat /\
+  forall b, In b shutdown_loop_bodies -> forall n ts o, each n (only_exc b) ts o -> o = ONorm /\ length ts = n.
+Proof.
+  split; [vm_compute; reflexivity|]. intros b I n ts o X.
+  assert (A : forallb (fun b => match esc (only_exc b) with [] => true | _ => false end && no_exit (only_exc b)) shutdown_loop_bodies = true)
+    by (vm_compute; reflexivity).
+  rewrite forallb_forall in A. specialize (A b I). apply andb_true_iff in A as [A1 A2].
+  eapply each_attempts_all; [|exact A2|exact X]. destruct (esc (only_exc b)); [reflexivity|discriminate].
+Qed.
+Print Assumptions C14_every_step_and_plugin_attempted.
